@@ -16,6 +16,7 @@ Inductive tok :=
 | TChar (g : glyph)
 | TCR | TLF
 | TCUU (n : nat) | TCUB (n : nat)       (* ESC[nA / ESC[nD, n >= 1 *)
+| TCUD (n : nat) | TCUF (n : nat)       (* ESC[nB / ESC[nC: down (never scrolls) / forward, clamped to the window *)
 | TCUP (r : nat)                          (* ESC[r;H : row r (1-based), column 1 *)
 | THome                                   (* ESC[H *)
 | TELright | TELall                       (* ESC[K / ESC[2K *)
@@ -75,6 +76,8 @@ Definition buf_apply (w h : nat) (b : buffer) (t : tok) : buffer :=
   | TLF => line_feed w b
   | TCUU n => mk (tape b) (Nat.max (top h b) (crow c - n)) (ccol c) false
   | TCUB n => mk (tape b) (crow c) (ccol c - n) false
+  | TCUD n => mk (tape b) (Nat.min (crow c + n) (top h b + (h - 1))) (ccol c) false
+  | TCUF n => mk (tape b) (crow c) (Nat.min (ccol c + n) (w - 1)) false
   | TCUP r => mk (tape b) (Nat.min (top h b + (r - 1)) (top h b + (h - 1))) 0 false
   | THome => mk (tape b) (top h b) 0 false
   | TELright => mk (upd_row (tape b) (crow c) (fun r => erase_right w r (ccol c))) (crow c) (ccol c) (cpend c)
